@@ -226,9 +226,20 @@ def check_segments(ctx):
     }
     for meth, table in want.items():
         fn = m.fn("%s.%s" % (CLS, meth))
+        # the arrays are identified by their position in the returned tuple, not by what the method calls them
+        roles_in_order = []
+        for k in table:
+            if k[0] not in roles_in_order:
+                roles_in_order.append(k[0])
+        rets = [s for s in fn.body if isinstance(s, ast.Return)]
+        rv = rets[-1].value if rets else None
+        actual = [e.id for e in rv.elts] if isinstance(rv, ast.Tuple) and all(isinstance(e, ast.Name) for e in rv.elts) else ([rv.id] if isinstance(rv, ast.Name) else [])
+        if len(actual) != len(roles_in_order):
+            raise AnalysisError("%s.%s: does not return %d local arrays" % (CLS, meth, len(roles_in_order)))
+        role_of = dict(zip(actual, roles_in_order))
         got = {}
         for arr, seg, val, ln in segment_stores(fn):
-            got[(arr, seg)] = (val.replace(" ", ""), ln)
+            got[(role_of.get(arr, arr), seg)] = (val.replace(" ", ""), ln)
         for key, exp in table.items():
             exps = exp if isinstance(exp, list) else [exp]
             g = got.get(key)
@@ -251,8 +262,12 @@ def check_segments(ctx):
              fw.lineno, "weights stack " + wv[:80], "weights are stacked as %s" % wv)
     fg = m.fn(CLS + ".get_arrays")
     dg = roles.Defs(fg)
-    arrs = dg.defs.get("arrays")
-    got = [roles.canon(e, dg).replace(" ", "") for e in arrs[1].elts] if arrs and isinstance(arrs[1], ast.List) else []
+    rv = [s.value for s in fg.body if isinstance(s, ast.Return)]
+    arrs = rv[0] if len(rv) == 1 else None
+    if isinstance(arrs, ast.Name):
+        d = dg.defs.get(arrs.id)
+        arrs = d[1] if d else None
+    got = [roles.canon(e, dg).replace(" ", "") for e in arrs.elts] if isinstance(arrs, (ast.List, ast.Tuple)) else []
     exp = ["self._vectorize_points()[0]", "self._vectorize_points()[1]", "self._vectorize_weights()", "self._vectorize_indices()[0]", "self._vectorize_indices()[1]",
            "self._vectorize_offsets()[0]", "self._vectorize_offsets()[1]", "self._vectorize_offsets()[2]", "self._get_number_of_quad_points()"]
     if got != exp:
@@ -264,12 +279,8 @@ def check_segments(ctx):
         if ext and any(x in g for x in ext for g in got):
             raise AnalysisError("get_arrays: arrays are taken from module-level table(s) %s; the order of the returned arrays cannot be read off the source" % ext)
     r2.check(got == exp, "get_arrays order", SA, CLS + ".get_arrays", fg.lineno, "get_arrays order %s" % got, "get_arrays returns %s" % got)
-    # return tuples of the _vectorize_* methods
-    for meth, names in (("_vectorize_offsets", ["test_offsets", "trial_offsets", "weights_offsets"]), ("_vectorize_indices", ["test_indices", "trial_indices"])):
-        f = m.fn("%s.%s" % (CLS, meth))
-        ret = [s for s in f.body if isinstance(s, ast.Return)][0]
-        r2.check([unparse(e) for e in ret.value.elts] == names, meth + " return order", SA, CLS + "." + meth, ret.lineno, "%s returns %s" % (meth, unparse(ret.value)),
-                 "%s returns %s, expected %s" % (meth, unparse(ret.value), names))
+    # (the return order of the _vectorize_* methods is part of SING-SEGMENTS: the arrays are identified by their position
+    # in the returned tuple, so an exchanged order shows as segments filled from the other side's adjacency rows)
 
 
 # ---------------------------------------------------------------- support filters and role plumbing
@@ -342,7 +353,15 @@ def check_result_layout(ctx):
                 return rind
             return None
 
-        env = {"rule": rule, "_np": Opq("_np", "module")}
+        # the locals by role: the rule object is the receiver of .get_arrays(); the returned triple is (rows, cols, values)
+        recv = {c.func.value.id for c in calls_in(fn) if isinstance(c.func, ast.Attribute) and c.func.attr == "get_arrays" and isinstance(c.func.value, ast.Name)}
+        ret = [s for s in fn.body if isinstance(s, ast.Return)]
+        if len(recv) != 1 or len(ret) != 1 or not (isinstance(ret[0].value, ast.Tuple) and len(ret[0].value.elts) == 3 and all(isinstance(e, ast.Name) for e in ret[0].value.elts)):
+            raise AnalysisError("assemble_singular_part: rule object (receiver of get_arrays) or `return (rows, cols, values)` not found")
+        RULE = recv.pop()
+        ret = ret[0]
+        I, J, RES = (e.id for e in ret.value.elts)
+        env = {RULE: rule, "_np": Opq("_np", "module")}
         it = Interp(m, fn, env, {"globals": {"_np": Opq("_np", "module")}, "attr": attr})
         # bind the two shape-function counts by provenance
         defs = roles.Defs(fn)
@@ -358,23 +377,32 @@ def check_result_layout(ctx):
         if len(names) != 2:
             raise AnalysisError("assemble_singular_part: shape function counts not found")
         it.env.update(names)
-        wanted = ("irange", "jrange", "i_ind", "j_ind")
+        simple = {st.targets[0].id: st for st in fn.body if isinstance(st, ast.Assign) and len(st.targets) == 1 and isinstance(st.targets[0], ast.Name)}
+        wanted, todo = set(), [I, J]
+        while todo:
+            nm = todo.pop()
+            if nm in wanted or nm in names or nm == RULE or nm not in simple:
+                continue
+            wanted.add(nm)
+            todo.extend(n.id for n in ast.walk(simple[nm].value) if isinstance(n, ast.Name))
         for st in fn.body:
             if isinstance(st, ast.Assign) and isinstance(st.targets[0], ast.Name) and st.targets[0].id in wanted:
                 it.stmt(st)
         pair, i, j = symex.fresh("pair"), symex.fresh("i"), symex.fresh("j")
         symex.RANGES[pair], symex.RANGES[i], symex.RANGES[j] = P, NT, NR
         slot = NT * NR * V.atom(pair) + V.atom(i) * NR + V.atom(j)
-        gi = tov(it.index(it.env["i_ind"], [slot], fn))
-        gj = tov(it.index(it.env["j_ind"], [slot], fn))
+        gi = tov(it.index(it.env[I], [slot], fn))
+        gj = tov(it.index(it.env[J], [slot], fn))
         wi = NT * opaque_atom("test_indices", [V.atom(pair)]) + V.atom(i)
         wj = NR * opaque_atom("trial_indices", [V.atom(pair)]) + V.atom(j)
         ln = fn.lineno
         r.check(gi.eq(wi), "i_ind", SA, fn.name, ln, "i_ind[slot] = %r" % gi, "row index of slot (pair,i,j) is %r, expected ntest*test_indices[pair] + i" % gi)
         r.check(gj.eq(wj), "j_ind", SA, fn.name, ln, "j_ind[slot] = %r" % gj, "column index of slot (pair,i,j) is %r, expected ntrial*trial_indices[pair] + j" % gj)
-        ret = [s for s in fn.body if isinstance(s, ast.Return)][0]
-        r.check([unparse(e) for e in ret.value.elts] == ["i_ind", "j_ind", "result"], "return order", SA, fn.name, ret.lineno, "assemble_singular_part returns " + unparse(ret.value),
-                "assemble_singular_part returns %s, expected (i_ind, j_ind, result)" % unparse(ret.value))
+        # the third returned array is the one the kernel launch wrote: last positional argument of the dispatcher call
+        disp = [c for c in calls_in(fn) if unparse(c.func).endswith("singular_assembler_dispatcher")]
+        filled = unparse(disp[0].args[-1]) if len(disp) == 1 and disp[0].args else None
+        r.check(filled == RES, "return order", SA, fn.name, ret.lineno, "assemble_singular_part returns " + unparse(ret.value),
+                "assemble_singular_part returns %s: the first two are decoded as row / column indices (above), the third must be the array handed to the singular kernels (`%s`)" % (unparse(ret.value), filled))
     finally:
         pass
 
